@@ -20,7 +20,7 @@ fi
 git apply _out/patch$N.diff || exit 9
 CHECKS=""
 for P in $PID $OTHER; do
-  (cd /verif && VERIF_REPO=$WT VERIF_EVIDENCE_DIR=$OUT VERIF_REPLAY_DIR=$OUT/replays ./vcheck $P --tier quick > $OUT/check_$P.log 2>&1); RC=$?
+  (cd ${VERIF_HOME:-/verif} && VERIF_REPO=$WT VERIF_EVIDENCE_DIR=$OUT VERIF_REPLAY_DIR=$OUT/replays ./vcheck $P --tier quick > $OUT/check_$P.log 2>&1); RC=$?
   CHECKS="$CHECKS \"$P\": $RC,"
 done
 git checkout -q -- .
